@@ -205,14 +205,15 @@ class Body:
                     p = st["pl"]
                     if not p["p"]:
                         self.defs[p["l"]].append((bi, si))
-                    else:
+                    elif "*" not in p["p"]:
+                        # a write through a pointer held in the local is not a definition of the local
                         self.partial_defs[p["l"]].append((bi, si))
             t = bb["term"]
             if t and t["k"] == "call":
                 p = t["dest"]
                 if not p["p"]:
                     self.defs[p["l"]].append((bi, len(bb["stmts"])))
-                else:
+                elif "*" not in p["p"]:
                     self.partial_defs[p["l"]].append((bi, len(bb["stmts"])))
             if t and t["k"] == "yield":
                 p = t["resume_arg"]
@@ -564,6 +565,8 @@ def norm(e):
             op, b = "Shr", ("const", b[1].bit_length() - 1, b[2])
         if op == "Rem" and b[0] == "const" and isinstance(b[1], int) and b[1] > 0 and (b[1] & (b[1] - 1)) == 0:
             op, b = "BitAnd", ("const", b[1] - 1, b[2])
+        if op in ("Shl", "Shr") and b[0] == "const":
+            b = ("const", b[1], "shamt")
         if op in COMMUTATIVE and repr(a) > repr(b):
             a, b = b, a
         return ("bin", op, a, b)
